@@ -12,6 +12,7 @@ import datetime
 import decimal
 import enum
 import fractions
+import json
 import pathlib
 import re
 import sys
@@ -104,6 +105,7 @@ class Env:
         self.uid = f"{tag}{_COUNTER[0]}"
         self.modules: dict[str, types.ModuleType] = {}
         self.aux: list[str] = []          # NewType / alias definitions appended to the root module
+        self.wrappers: dict = {}
         self.auxn = 0
         self.sources: dict[str, str] = {}
         self._built = False
@@ -141,8 +143,14 @@ class Env:
             py = d.get("py", t["c"])
             return py if d["module"] == home else f"{self.modname(d['module'])}.{py}"
         if k in ("newtype", "alias", "salias"):
+            # one wrapper object per (term, module), as users define an alias once and use it many times:
+            # the same term reached on two paths is the same NewType / alias object
+            memo_key = (json.dumps(t, sort_keys=True), home)
+            if memo_key in self.wrappers:
+                return self.wrappers[memo_key]
             self.auxn += 1
-            name = f"W{self.auxn}"
+            name = f"Aux{self.auxn}"
+            self.wrappers[memo_key] = name
             inner = self.render(t["a"], home)
             if k == "newtype":
                 self.aux.append((home, f"{name} = typing.NewType({name!r}, {inner})"))
@@ -195,7 +203,7 @@ class Env:
             # a field whose type mentions a class that is not defined yet (later in this module, in another
             # module, or the class itself) -- or a NewType/alias, which are defined after the classes -- is
             # written as a string annotation, as users write forward references
-            if not self._mentions(f[1]) <= defined or len(self.aux) > naux:
+            if not self._mentions(f[1]) <= defined or len(self.aux) > naux or _has_wrapper(f[1]):
                 src = repr(src)
             fields.append((f[0], src, f[2], f[1]))
 
@@ -207,7 +215,7 @@ class Env:
             lines.append(f"@dataclasses.dataclass({opts})")
             lines.append(f"class {name}:")
             for fn, src, has_d, T in fields:
-                lines.append(f"    {fn}: {src}" + (" = None" if has_d else ""))
+                lines.append(f"    {fn}: {src}" + ((" = 7" if T["k"] == "classvar" else " = None") if has_d else ""))
         elif fl == "namedtuple":
             lines.append(f"class {name}(typing.NamedTuple):")
             for fn, src, has_d, T in fields:
@@ -218,6 +226,12 @@ class Env:
                 if fl == "typeddict_nr" and has_d:
                     src = f"typing.NotRequired[{src}]"     # src may itself be a quoted forward reference
                 lines.append(f"    {fn}: {src}")
+        elif fl == "typeddict_inh":
+            # a total=False body on top of a total base: the base's keys stay required
+            lines.append(f"class {name}_base(typing.TypedDict):")
+            lines += [f"    {fn}: {src}" for fn, src, has_d, T in fields if not has_d] or ["    pass"]
+            lines.append(f"class {name}({name}_base, total=False):")
+            lines += [f"    {fn}: {src}" for fn, src, has_d, T in fields if has_d] or ["    pass"]
         elif fl == "plain":
             lines.append(f"class {name}:")
             for fn, src, has_d, T in fields:
@@ -302,6 +316,13 @@ class Env:
     def dispose(self):
         for mod in self.modules.values():
             sys.modules.pop(mod.__name__, None)
+
+
+def _has_wrapper(T) -> bool:
+    if T["k"] in ("newtype", "alias", "salias"):
+        return True
+    return any(_has_wrapper(x) for key in ("a", "ka", "va") if isinstance((x := T.get(key)), dict)) or \
+        any(_has_wrapper(x) for x in (T.get("xs") or []) if isinstance(x, dict))
 
 
 def _accepts_none(T):
@@ -439,6 +460,8 @@ def class_values(name, env: Env, rng, n, depth):
         # cut recursion: only possible if every field can be omitted / None
         fields = {}
         for fn, T, has_d in d["fields"]:
+            if T["k"] == "classvar":
+                continue
             if has_d or _accepts_none(T):
                 if d["flavour"].startswith("typeddict"):
                     if not has_d:
@@ -452,6 +475,8 @@ def class_values(name, env: Env, rng, n, depth):
         return [_construct(C, d, fields)]
     cols = {}
     for fn, T, has_d in d["fields"]:
+        if T["k"] == "classvar":
+            continue
         vs = values(T, env, rng, 2, depth + 1)
         if not vs:
             return []
